@@ -44,7 +44,7 @@ Placements(apex, s) ==
 SpecialsQuick == { <<34>>, <<92>>, <<59>>, <<40>>, <<41>>, <<32>>, <<9>>, <<64>>, <<36>>, <<49>>, <<120>>, <<1>>, <<127>>,
                    <<120, 32>>, <<64, 120>>, <<92, 34>> }
 SpecialsAll == SpecialsQuick \cup { <<0>>, <<10>>, <<13>>, <<35>>, <<39>>, <<47>>, <<126>>, <<120, 64>>, <<40, 41>>,
-                                    <<59, 59>>, <<32, 32>>, <<49, 50>>, <<73, 78>> }
+                                    <<59, 59>>, <<32, 32>>, <<49, 50>>, <<105, 110>> }   \* ("in": the class mnemonic in lower case is an owner label; labels are lower case, I2)
 
 Init == zone \in Zones0
 Next == /\ Cardinality(zone.recs) < MaxRecs
